@@ -267,7 +267,7 @@ impl std::fmt::Display for Pat {
                 }
                 Ok(())
             }
-            Pat::Subst(b, x, t) => write!(f, "{{{b} / {x} := {t}}}"),
+            Pat::Subst(b, x, t) => write!(f, "(subst {b} {x} {t})"),
         }
     }
 }
